@@ -24,6 +24,10 @@ ASSUME = ['TLC results are exhaustive only within the stated constants (<= 4 nod
           'a weak reference to an object without oid makes the commit store that object (deviation named in '
           'persistent_id; constant WeakAdds)',
           'after a pack "another connection" is one that has not cached the packed-away objects (a pack sends no invalidations)',
+          'savepoint rollback / abort are not taken while an object about to be disowned is registered as changed, or '
+          'while an object left without oid holds a WeakRef to a disowned one (the WeakRef keeps the stale oid): C11 (F16/F23 family)',
+          'deviation constants (SavepointOrphans, ImportNotCreating, Py2Remap, BrokenContainerUnloadable, '
+          'BrokenReduceLosesArgs) are set per tree: TRUE where the replayed TLC counterexample conforms to the as-it-is model',
           'the loading connection B is the only other connection of database "1", so the pool hands the same connection '
           'back (checked: machinery failure otherwise)',
           'transaction, persistent, zodbpickle trusted as installed']
@@ -398,8 +402,12 @@ def run(ctx):
                 'targets, every set of add()ed nodes; build, commit, then the loading connection through its life-cycle - '
                 'load, cacheMinimize, close, re-open from the pool and load, resetCaches, close, re-open and load, pack, '
                 'load) or one TLC -simulate mutation program (AddEdge / RemoveEdge / ExplicitAdd / Commit / LoadElsewhere / '
-                'Pack / MinimizeAllB / MinimizeSomeB / AbortB / CloseB / ResetCaches, <= 16 operations, 4 nodes, every '
-                'class-kind assignment).  After EVERY action: oids / add()ed / changed flags of '
+                'Pack / MinimizeAllB / MinimizeSomeB / AbortB / CloseB / ResetCaches / Savepoint / Rollback(k) / Abort / '
+                'ImportCopy / TouchElsewhere, <= 16 operations, 4 nodes, every class-kind assignment incl. a class in a '
+                'module named like a py2 stdlib module; container shapes incl. instances of missing list / dict / value '
+                'classes; a second, savepoint-dense program set over 3 nodes) or the TLC counterexample of one deviation '
+                'constant (exhibit).  The property monitor reports, under its own signature, every step TLC marks as '
+                'breaking the property in the code-as-it-is model once the code has been seen to take it.  After EVERY action: oids / add()ed / changed flags of '
                 'connection A, every raw record decoded without ZODB.serialize (class description, references by kind and '
                 'container shape, no embedded instance), referencesf and get_refs per record with the classes '
                 'un-importable; at LoadElsewhere: every node in another connection (class or placeholder, constructor '
